@@ -444,7 +444,9 @@ def gen_arch(rng, modules, all_named, universe=(), p_regex=0.35):
             break
     nlayers = rng.randint(2, 4)
     layers = []
-    names = ["LA", "LB", "LC", "LD"] if rng.random() < 0.8 else ["LA", "La", "LB", "Lb"]
+    r = rng.random()
+    names = (["LA", "LB", "LC", "LD"] if r < 0.7 else ["LA", "La", "LB", "Lb"] if r < 0.88
+             else ["A", "B", "C", "D"])  # one-letter names: "AB" is not a layer, its letters are
     i = 0
     for li in range(nlayers):
         if i >= len(chosen):
